@@ -80,12 +80,9 @@ func NewPebbleScanner(dbPath string, opts PebbleScannerOptions) (*PebbleScanner,
 	// 1. Path Sanitization
 	// We prevent the engine from initializing in sensitive system roots.
 	// This captures cases where a misconfigured env var points the DB to /etc or /root.
-	absPath, err := filepath.EvalSymlinks(dbPath)
+	absPath, err := resolveDBLocation(dbPath)
 	if err != nil {
-		if !os.IsNotExist(err) {
-			return nil, fmt.Errorf("failed to resolve absolute path for db: %w", err)
-		}
-		absPath, _ = filepath.Abs(dbPath)
+		return nil, fmt.Errorf("failed to resolve absolute path for db: %w", err)
 	}
 	// Restricts database operations to non critical directories.
 	// Initializing a database in system roots could allow an attacker
@@ -93,7 +90,11 @@ func NewPebbleScanner(dbPath string, opts PebbleScannerOptions) (*PebbleScanner,
 	if runtime.GOOS == "linux" {
 		sensitivePrefixes := []string{"/etc", "/root", "/usr", "/bin", "/sbin", "/boot"}
 		for _, sp := range sensitivePrefixes {
-			if strings.HasPrefix(absPath, sp) {
+			if isInsideDir(absPath, sp) {
+				return nil, fmt.Errorf("security violation: refusing to initialize database in system directory %q", absPath)
+			}
+			// The protected directory may itself be a symlink (e.g. /bin -> /usr/bin).
+			if realSP, err := filepath.EvalSymlinks(sp); err == nil && isInsideDir(absPath, realSP) {
 				return nil, fmt.Errorf("security violation: refusing to initialize database in system directory %q", absPath)
 			}
 		}
@@ -180,6 +181,49 @@ func NewPebbleScanner(dbPath string, opts PebbleScannerOptions) (*PebbleScanner,
 	}
 
 	return scanner, nil
+}
+
+// resolveDBLocation returns the location the database directory will really occupy.
+// Symlinks are resolved for the longest existing ancestor of the (absolute, deliberately
+// uncleaned) path; the not yet existing remainder is appended to it. Resolving only the full
+// path is not enough: for a database that does not exist yet EvalSymlinks fails, and a
+// symlinked parent (or a relative path) would slip past a lexical check.
+func resolveDBLocation(dbPath string) (string, error) {
+	p := dbPath
+	if !filepath.IsAbs(p) {
+		wd, err := os.Getwd()
+		if err != nil {
+			return "", err
+		}
+		// Not filepath.Join: ".." after a symlink must be resolved physically, not lexically.
+		p = wd + string(filepath.Separator) + p
+	}
+	head, rest := p, ""
+	for {
+		resolved, err := filepath.EvalSymlinks(head)
+		if err == nil {
+			return filepath.Join(resolved, rest), nil
+		}
+		if !os.IsNotExist(err) {
+			return "", err
+		}
+		trimmed := strings.TrimRight(head, string(filepath.Separator))
+		i := strings.LastIndexByte(trimmed, filepath.Separator)
+		if i < 0 {
+			return filepath.Clean(p), nil
+		}
+		rest = filepath.Join(trimmed[i+1:], rest)
+		head = trimmed[:i+1]
+	}
+}
+
+// isInsideDir reports whether the clean absolute path p is dir itself or lies beneath it
+// (component-wise: "/etcetera" is not inside "/etc").
+func isInsideDir(p, dir string) bool {
+	if dir == string(filepath.Separator) {
+		return true
+	}
+	return p == dir || strings.HasPrefix(p, dir+string(filepath.Separator))
 }
 
 func (s *PebbleScanner) Close() error {
